@@ -1754,6 +1754,7 @@ namespace awkward {
         throw std::invalid_argument(validity_error + FILENAME(__LINE__));
       }
       NumpyArray* rawcontent = dynamic_cast<NumpyArray*>(content_.get());
+      NumpyArray contiguous_content = rawcontent->contiguous();
 
       Index64 tocarry(parents.length());
       struct Error err = kernel::ListOffsetArray_argsort_strings(
@@ -1761,7 +1762,7 @@ namespace awkward {
         tocarry.data(),
         parents.data(),
         parents.length(),
-        reinterpret_cast<uint8_t*>(rawcontent->data()),
+        reinterpret_cast<uint8_t*>(contiguous_content.data()),
         util::make_starts(offsets_).data(),
         util::make_stops(offsets_).data(),
         stable,
@@ -1945,6 +1946,7 @@ namespace awkward {
         throw std::invalid_argument(validity_error + FILENAME(__LINE__));
       }
       NumpyArray* rawcontent = dynamic_cast<NumpyArray*>(content_.get());
+      NumpyArray contiguous_content = rawcontent->contiguous();
 
       Index64 output(parents.length());
       struct Error err = kernel::ListOffsetArray_argsort_strings(
@@ -1952,7 +1954,7 @@ namespace awkward {
         output.data(),
         parents.data(),
         parents.length(),
-        reinterpret_cast<uint8_t*>(rawcontent->data()),
+        reinterpret_cast<uint8_t*>(contiguous_content.data()),
         util::make_starts(offsets_).data(),
         util::make_stops(offsets_).data(),
         stable,
